@@ -18,6 +18,7 @@ INJECT = {
     "blob/index/bptree/core.rs": "h_bptree_core.rs",
     "blob/index/bptree/node.rs": "h_bptree_node.rs",
     "blob/index/bptree/serializer.rs": "h_bptree_serializer.rs",
+    "blob/index/bptree/meta.rs": "h_bptree_meta.rs",
     "blob/index/header.rs": "h_index_header.rs",
     "blob/index/core.rs": "h_index_core.rs",
     "blob/header.rs": "h_blob_header.rs",
